@@ -11,6 +11,20 @@ FW2x2 == Sub({"*", "Ping", "Pong"}, 2)
 FB2x1 == Sub({"Ping", "Pong", "CloseQueue"}, 1)
 FWg   == Sub({"*", "Ping", "Pong", "Version", "CloseQueue", "Watch"}, 2)
 FBg   == Sub({"Ping", "Pong", "Version", "CloseQueue", "Watch"}, 2)
+\* row export universes
+IPq == {{}, {"A"}, {"*"}, {"B"}}
+FWq == {{}, {"Ping"}}
+FBq == {{}, {"Ping"}}
+IP7 == {{}, {"A"}, {"*"}, {"A", "B"}, {"Z"}, {"V6"}, {"*", "A"}}
+IP2 == {{}, {"A"}}
+FW1 == {{}, {"Ping"}}
+FB1 == {{}}
+FWt == {{}, {"*"}, {"Ping"}, {"*", "Pong"}, {"Ping", "Version"}}
+FBt == {{}, {"Ping"}, {"Pong", "CloseQueue"}}
+Au1 == {"off"}
+\* multi-configuration universes
+IP3 == {{}, {"A"}, {"*"}}
+FW3 == {{}, {"Ping"}, {"*"}}
 Au3 == {"off", "on", "passonly"}
 Au2 == {"off", "on"}
 =============================================================================
